@@ -117,6 +117,14 @@ def impl_pickle(cfg, o, regs2, label, rng, res, fresh):
         with ctx_dump[0]:
             data = pickle.dumps(sp, protocol=proto)
         state0 = (sp.__getstate__(), repr(sp), hash(sp))
+        # an earlier load in this process, under the registry of the dumping side, whose result stays alive
+        # across the registry change: what a later load returns must depend on the registry at that time only
+        earlier = None
+        if how == 'pickle' and rng.random() < 0.5:
+            earlier = attempt(lambda: pickle.loads(data))
+            res.count('earlier_load_kept_alive')
+            if earlier[0] != 0 or earlier[1] != sp:
+                res.fail('loading under the dumping registry failed or gave another treespec', case, str(earlier)[:200])
         switch_registry(current, regs2)
         current = regs2
         with ctx_load[0]:
@@ -140,6 +148,10 @@ def impl_pickle(cfg, o, regs2, label, rng, res, fresh):
                    (1 if sp2 == sp else 0,
                     (1 if sp2 == fresh_sp[1] else 0) if fresh_sp[0] == 0 else 2,
                     (0, abstract(u[1])) if u[0] == 0 else u))
+            if label in ('missing', 'reregistered') and fresh_sp[0] == 0 and sp2 != fresh_sp[1]:
+                res.fail('after the registry changed, a load that succeeds is not == a treespec flattened afresh '
+                         '(a custom type is bound to a registration that is no longer in force)', case,
+                         f'{label}: {sp2!r} vs {fresh_sp[1]!r}')
             if label == 'same':
                 if not (sp2 == sp) or hash(sp2) != hash(sp):
                     res.fail('unpickled treespec is not == the original / hashes differently', case)
